@@ -298,6 +298,9 @@ func (fe *formEval) eval1(v ssa.Value) poly {
 			return atomPoly(fmt.Sprintf("(%s %s %s)", fe.eval(x.X), x.Op, fe.eval(x.Y)))
 		}
 	case *ssa.Phi:
+		if rv, ok := resolvePhiByUses(x); ok {
+			return fe.eval(rv)
+		}
 		var first poly
 		same := true
 		for i, e := range x.Edges {
